@@ -360,6 +360,12 @@ func discharge(m *Machine, h HarnessSpec, rep *HarnessReport, overlay map[string
 					}
 					if n > 0 {
 						sc2 := strings.Replace(sc, "(set-logic QF_LIA)\n", "", 1) + extra.String()
+						want = nil
+						for _, nn := range nondetNames {
+							if used[nn] {
+								want = append(want, nn)
+							}
+						}
 						v2, mod2 := z.query(sc2, want)
 						if z.dead {
 							z = startSolver(solverBin(), to)
@@ -630,6 +636,30 @@ func nativeRun(h HarnessSpec, overlay map[string][]byte, inputs [][]string) ([]n
 			}
 		}
 	}
+	// the package's own test files are replaced by empty stubs: their init() code (benchmark set-up that
+	// draws random points, ...) must not run - or hang - before the replay does
+	if ents, err := os.ReadDir(pkgDir); err == nil {
+		for _, e := range ents {
+			if !strings.HasSuffix(e.Name(), "_test.go") {
+				continue
+			}
+			orig, err := os.ReadFile(filepath.Join(pkgDir, e.Name()))
+			if err != nil {
+				continue
+			}
+			clause := "package " + pkgName
+			for _, l := range strings.Split(string(orig), "\n") {
+				if strings.HasPrefix(l, "package ") {
+					clause = strings.TrimSpace(l)
+					break
+				}
+			}
+			f := filepath.Join(tmp, fmt.Sprintf("stub%d.go", k))
+			k++
+			os.WriteFile(f, []byte(clause+"\n"), 0o644)
+			ov[filepath.Join(pkgDir, e.Name())] = f
+		}
+	}
 	var sb strings.Builder
 	fmt.Fprintf(&sb, "package %s\n\nimport (\n\t\"encoding/json\"\n\t\"fmt\"\n\t\"testing\"\n)\n\n", pkgName)
 	sb.WriteString("func TestVerifReplay(t *testing.T) {\n\tcases := [][]string{\n")
@@ -659,7 +689,7 @@ func nativeRun(h HarnessSpec, overlay map[string][]byte, inputs [][]string) ([]n
 	ovj, _ := json.Marshal(map[string]any{"Replace": ov})
 	ovf := filepath.Join(tmp, "ov.json")
 	os.WriteFile(ovf, ovj, 0o644)
-	argv := []string{"test", "-vet=off", "-count=1", "-overlay", ovf, "-run", "^TestVerifReplay$", "-timeout", "300s"}
+	argv := []string{"test", "-v", "-vet=off", "-count=1", "-overlay", ovf, "-run", "^TestVerifReplay$", "-timeout", "300s"}
 	if h.Tags != "" {
 		argv = append(argv, "-tags="+h.Tags)
 	}
